@@ -41,8 +41,12 @@ def symbolic_derivative(arr, var, env):
     out = []
     for e in np.asarray(arr, dtype=object).flatten():
         e = sympy.sympify(e)
-        out.append(complex(sympy.N(sympy.diff(e, c14.sym(var)).subs(
-            {c14.sym(k): v for k, v in env.items()}))))
+        try:
+            out.append(complex(sympy.N(sympy.diff(e, c14.sym(var)).subs(
+                {c14.sym(k): v for k, v in env.items()}))))
+        except TypeError:
+            raise Violation("C15:evaluation-not-differentiable",
+                            "entry {!r}".format(e)[:400])
     return np.array(out)
 
 
@@ -52,7 +56,7 @@ def circuit_cases(draw, tier):
     gates = ["rot", "rot", "rot", "named", "scalar"]
     spec = draw(c14.symbolic_circuits(
         tier, allow_mixed=False, exprs=EXPRS, max_boxes=4,
-        gates=gates + ["rot2", "cx"]))
+        gates=gates + ["rot2", "rot2", "cx"]))
     # scalars with real symbols only
     layers = []
     for b, off in spec["layers"]:
@@ -115,62 +119,90 @@ def check_circuit(case):
         show="d/d{} {}".format(var, common.show(d, 200)))
 
 
+ENTRIES = ["u", "v", "2*u", "u + 0.25", "u*v", "u**2", "u/2 + v", "-u"]
+
+
+@st.composite
+def symbolic_boxes(draw, scan, k, max_cod=2):
+    nd = draw(st.integers(0, min(1, len(scan))))
+    off = draw(st.integers(0, len(scan) - nd))
+    nc = draw(st.integers(0, max_cod if len(scan) < 3 else 0))
+    entry = st.one_of(st.sampled_from(ENTRIES), st.integers(-2, 2),
+                      st.sampled_from(ENTRIES))
+    svals = [draw(entry) for _ in range(2 ** (nd + nc))]
+    return {"k": "box", "name": "t%d" % k, "dom": [[2, 0]] * nd,
+            "cod": [[2, 0]] * nc, "dag": False, "svals": svals}, off
+
+
 @st.composite
 def tensor_cases(draw, tier):
-    case = draw(c14.tensor_cases(tier))
-    spec = case["d"]
-    # real symbols only
-    layers = []
-    for b, off in spec["layers"]:
-        b = dict(b, svals=[v.replace("x", "u").replace("y", "v")
-                           if isinstance(v, str) else v for v in b["svals"]])
+    dom = draw(st.sampled_from([[], [], [[2, 0]]]))
+    scan, layers = [list(w) for w in dom], []
+    for k in range(draw(st.integers(1, 2))):
+        b, off = draw(symbolic_boxes(scan, k))
         layers.append([b, off])
-    spec = dict(spec, layers=layers)
+        scan = scan[:off] + b["cod"] + scan[off + len(b["dom"]):]
+    inner = {"cls": "tensor", "dom": dom, "layers": layers}
+    bubbled = len(dom) <= 1 and len(scan) <= 1 and draw(st.booleans())
+    if bubbled:
+        layers = [[{"k": "bubble", "inside": inner, "f": draw(
+            st.sampled_from(["square", "double", "plus1", "cube"]))}, 0]]
+    layers = list(layers)
+    for k in range(draw(st.integers(0, 2))):
+        b, off = draw(symbolic_boxes(scan, 10 + k))
+        layers.append([b, off])
+        scan = scan[:off] + b["cod"] + scan[off + len(b["dom"]):]
+    spec = {"cls": "tensor", "dom": dom, "layers": layers}
     symbols = sorted(c14.spec_symbols(spec)) or ["u"]
     return {"d": spec, "var": draw(st.sampled_from(symbols + ["v"])),
             "env": {s: draw(st.sampled_from(POINTS))
                     for s in ["u", "v", "x", "y", "z"]},
-            "bubble": draw(st.sampled_from([None, "square", "double",
-                                            "plus1"])),
             "vars": draw(st.lists(st.sampled_from(["u", "v"]), unique=True,
                                   max_size=2))}
 
 
+def lib_array(value, like):
+    """ Array of an evaluation; the empty sum evaluates to the number 0. """
+    if hasattr(value, "array"):
+        return np.asarray(value.array, dtype=object)
+    return np.zeros(np.asarray(like).shape, dtype=object) + value
+
+
 def check_tensor(case):
-    import sympy
     spec, var, env = case["d"], case["var"], case["env"]
     d = c14.build_symbolic_tensor(spec)
-    if case["bubble"] and len(d.dom) <= 1 and len(d.cod) <= 1\
-            and len(d.dom) == len(d.cod) == 1:
-        func = {"square": lambda t: t ** 2, "double": lambda t: 2 * t,
-                "plus1": lambda t: t + 1}[case["bubble"]]
-        d = d.bubble(func=func)
     x = c14.sym(var)
     g = d.grad(x)
     value = d.eval()
-    if var not in {str(s) for s in d.free_symbols}:
+    symbols = c14.spec_symbols(spec)
+    require({str(s) for s in d.free_symbols} == symbols, "C15:free_symbols",
+            lambda: "{} reports {} but depends on {}".format(
+                d, d.free_symbols, symbols))
+    has_bubble = any(b["k"] == "bubble" for b, _ in spec["layers"])
+    if var not in symbols:
         require(len(g.terms) == 0, "C15:gradient-of-constant-not-empty",
                 lambda: "{}.grad({}) = {}".format(d, var, g))
         return dict(nt=False, labels=["independent"])
     ref = symbolic_derivative(value.array, var, env)
-    got = c14.to_complex(np.asarray(g.eval().array, dtype=object), env)
+    got = c14.to_complex(lib_array(g.eval(), value.array), env)
     same(got, ref, "tensor-gradient", "{} d/d{}".format(common.show(d), var))
-    # jacobian stacks the gradients along a new leading wire
+    # jacobian: dom unchanged, cod = Dim(len(variables)) @ cod
     variables = case["vars"]
-    jac = d.jacobian([c14.sym(v) for v in variables])
-    jval = jac.eval() if hasattr(jac, "eval") else jac
-    if len(variables) == 0:
-        pass
-    else:
-        arr = c14.to_complex(np.asarray(jval.array, dtype=object), env)
-        rows = [symbolic_derivative(value.array, v, env) for v in variables]
-        same(arr, np.stack(rows).reshape(-1) if len(variables) > 1
-             else rows[0], "jacobian", "{} wrt {}".format(
-                 common.show(d), variables))
+    if variables:
+        jac = d.jacobian([c14.sym(v) for v in variables])
+        nd = 2 ** len(spec["dom"])
+        rows = [symbolic_derivative(value.array, v, env).reshape(nd, -1)
+                for v in variables]
+        expected = np.stack(rows, axis=1) if len(variables) > 1 else rows[0]
+        arr = c14.to_complex(lib_array(jac.eval(), expected), env)
+        same(arr, expected.reshape(-1), "jacobian", "{} wrt {}".format(
+            common.show(d), variables))
     occ = sum(1 for b, _ in spec["layers"] for e in c14.box_exprs(b)
               if var in c14.expr_symbols(e))
-    return dict(nt=occ >= 2, labels=["tensor", "vars%d" % len(variables)],
-                show="d/d{} {}".format(var, common.show(d, 200)))
+    return dict(nt=occ >= 2 or has_bubble, labels=[
+        "tensor", "vars%d" % len(variables)] + (
+            ["bubble"] if has_bubble else []),
+        show="d/d{} {}".format(var, common.show(d, 200)))
 
 
 @st.composite
@@ -211,7 +243,7 @@ def check_jacobian(case):
 
 
 core.register("C15", [
-    Facet("circuits", circuit_cases, check_circuit, n_quick=200,
+    Facet("circuits", circuit_cases, check_circuit, n_quick=280,
           shards_quick=8, rule=RULE),
     Facet("tensors", tensor_cases, check_tensor, n_quick=120,
           shards_quick=4, rule="tensor diagrams with symbolic boxes, "
